@@ -226,7 +226,7 @@ func runRead(s ReadScript, v *vt.V) {
 }
 
 func genRead(t *rapid.T) ReadScript {
-	cfg := hist.Config{MaxOps: 25, ValidRepos: 3, BadManifests: false, Retype: false, Deletes: true, Lists: true, MaxSmall: 20}
+	cfg := hist.Config{MaxOps: 25, ValidRepos: 3, BadManifests: false, Retype: true, Deletes: true, Lists: true, MaxSmall: 20}
 	h0 := hist.Gen(cfg)(t)
 	h0.Immutable = false
 	// member 1: another history over the same universe
@@ -282,13 +282,33 @@ func genRead(t *rapid.T) ReadScript {
 		}
 		reads = append(reads, op)
 	}
+	if rapid.IntRange(0, 5).Draw(t, "sameReferrerTwoTypes") == 0 {
+		// the same referrer (an image manifest with a subject) held by member 0 as an image manifest
+		// and by member 1 as an index (the bytes parse as an index without members): the unified
+		// referrers listing names it once
+		for mi, m := range h0.U.Manifests {
+			if m.Kind != "image" || m.SubjectKind != 1 || m.BadDesc != 0 {
+				continue
+			}
+			if m.Config >= 0 {
+				h0.Ops = append(h0.Ops, ops.Op{K: "pushBlob", R: 0, B: m.Config})
+			}
+			for _, l := range m.Layers {
+				h0.Ops = append(h0.Ops, ops.Op{K: "pushBlob", R: 0, B: l})
+			}
+			h0.Ops = append(h0.Ops, ops.Op{K: "pushManifest", R: 0, M: mi, T: -1})
+			ops1 = append(ops1, ops.Op{K: "pushManifest", R: 0, M: mi, T: -1, Mode: 2})
+			reads = append(reads, ops.Op{K: "referrers", R: 0, M: m.SubjectRef})
+			break
+		}
+	}
 	return ReadScript{H0: h0, Ops1: ops1, Read: reads, Slow: rapid.IntRange(0, 2).Draw(t, "slow")}
 }
 
 var propRead = &vt.Prop[ReadScript]{
 	ID:   "C15",
 	Name: "UnionReads",
-	Rule: "two ocimem members are populated by two independently generated histories over one universe (equal, disjoint, overlapping contents, the same tag bound to different manifests, a repository known to one member only); 3-25 reads aimed at what either history touched (get/resolve blob, manifest, tag; ranges; repositories, tags, referrers with start points) are issued through ociunify under both policies, optionally with one member's digest-addressed reads delayed so that the member without the content answers first; oracle (from the members themselves) = digest reads succeed iff either member succeeds, with that member's bytes; tag reads: agreement or one side => that content, disagreement => error; listings = sorted duplicate-free union, NAME_UNKNOWN only when both say so; both policies identical; non-trivial = some read on which the members differ (conflict, one-sided, or different lists); distinct = (slow member, conflict/one-sided counts, read kinds)",
+	Rule: "two ocimem members are populated by two independently generated histories over one universe (equal, disjoint, overlapping contents, the same manifest bytes stored under different media types, the same tag bound to different manifests, a repository known to one member only); 3-25 reads aimed at what either history touched (get/resolve blob, manifest, tag; ranges; repositories, tags, referrers with start points) are issued through ociunify under both policies, optionally with one member's digest-addressed reads delayed so that the member without the content answers first; oracle (from the members themselves) = digest reads succeed iff either member succeeds, with that member's bytes; tag reads: agreement or one side => that content, disagreement => error; listings = sorted duplicate-free union, NAME_UNKNOWN only when both say so; both policies identical; non-trivial = some read on which the members differ (conflict, one-sided, or different lists); distinct = (slow member, conflict/one-sided counts, read kinds)",
 	Gen:  genRead,
 	Run:  runRead,
 }
